@@ -69,15 +69,35 @@ where
         // no lock is held while subscribing: a synchronous source may end the subscriber
         // (and thereby disconnect) before subscribe returns
         *wanted.write().unwrap() = true;
+        // a terminal of the source ends every subscriber, and with them the connection:
+        // the slot is emptied so that the next first subscriber connects again
+        // (weak: the stored subscription must not keep its own slot alive)
+        let release = {
+          let subscription = Arc::downgrade(&subscription);
+          let wanted = Arc::clone(&wanted);
+          move || {
+            *wanted.write().unwrap() = false;
+            if let Some(subscription) = subscription.upgrade() {
+              let sbsc = subscription.write().unwrap().take();
+              if let Some(sbsc) = sbsc {
+                sbsc.unsubscribe();
+              }
+            }
+          }
+        };
+        let release_error = release.clone();
+        let release_complete = release;
         let sbsc = source.subscribe(
           move |x| {
             sbj_next.next(x);
           },
           move |e| {
             sbj_error.error(e);
+            release_error();
           },
           move || {
             sbj_complete.complete();
+            release_complete();
           },
         );
         if *wanted.read().unwrap() {
